@@ -11,10 +11,10 @@ Definition apex_soa (r : rr) : Prop := r_name r = origin /\ r_type r = tSOA.
 
 (* the Inbound object right after __init__ *)
 Definition ixfr_init (z : zone) (ser : Z) (udp : bool) : st :=
-  mkSt z None tIXFR true ser udp None false false false.
+  mkSt z None tIXFR true ser udp None false false false false.
 
 Definition axfr_init (z : zone) (ser : option Z) : st :=
-  mkSt z None tAXFR false (match ser with Some sv => sv | None => 0 end) false None false false false.
+  mkSt z None tAXFR false (match ser with Some sv => sv | None => 0 end) false None false false false false.
 
 
 (* ---- the server side ---- *)
